@@ -13,6 +13,7 @@ import (
 	_ "verifharness/props/c06"
 	_ "verifharness/props/c07"
 	_ "verifharness/props/c08"
+	_ "verifharness/props/c09"
 	_ "verifharness/props/c10"
 	_ "verifharness/props/c13"
 	_ "verifharness/props/c14"
